@@ -353,7 +353,9 @@ theorem bin_length_trapz (s : Spectrum) (sym : Bool) (fl fr : ℚ) (pp : Option 
   · cases h
   · rename_i raw hraw
     have := binRaw_length_trapz s sym fl fr c raw hraw
-    split at h <;> cases h <;> simp [this]
+    split at h
+    · cases h; simp [this]
+    · split at h <;> cases h <;> simp [this]
 
 /-- Simpson binning (symmetric ends, float centres, no power preservation) of a non-negative spectrum is non-negative: the
 weights (x₂−x₀)/6·(1, 4, 1) of the chained rule are positive on increasing sample points — for any increasing centres, in
@@ -408,7 +410,9 @@ theorem bin_length (s : Spectrum) (simps sym intC : Bool) (fl fr : ℚ) (pp : Op
           simpa [binRaw] using hraw
         exact binRaw_length_trapz s sym fl fr c raw hraw'
       · exact binRaw_length_simps s sym intC fl fr c raw hraw
-    split at h <;> cases h <;> simp [hr]
+    split at h
+    · cases h; simp [hr]
+    · split at h <;> cases h <;> simp [hr]
 
 /-- trapezoid binning is exact for a spectrum that is linear across every bin: if the samples lie on the line a·λ + b and
 all bin edges lie inside the sampled range, bin k is the exact integral ∫ (a·λ + b) dλ over [e_k, e_{k+1}]
@@ -492,9 +496,8 @@ theorem bin_trapz_exact_per_bin (s : Spectrum) (hwf : WF s) (sym : Bool) (fl fr 
 
 /-- non-negativity of `bin` itself (trapezoid rule): a well-formed spectrum with non-negative values and non-negative
 fill, strictly increasing centres ⇒ every bin is non-negative — without power preservation, and with it (the
-normalisation integral `integrate s (min c) (max c)` and the raw sum are both non-negative). NOTE: when the raw bins sum to
-zero (all-zero spectrum, or every edge outside the data with fill 0) the model's normalised bins are 0 by ℚ's x/0 = 0; the
-code computes 0/0 and returns nan there — outside this theorem, see the harness ASSUMPTIONS. -/
+normalisation integral `integrate s (min c) (max c)` and the raw sum are both non-negative). The zero-raw-sum case (dark
+spectrum, or every edge outside the data with fill 0) is covered: the code's guard leaves the raw (all-zero) bins as they are. -/
 theorem bin_trapz_nonneg (s : Spectrum) (hwf : WF s) (hv : ∀ v ∈ s.value, 0 ≤ v) (sym : Bool) (fl fr : ℚ)
     (hfl : 0 ≤ fl) (hfr : 0 ≤ fr) (c : List ℚ) (hc : StrictInc c) (pp : Bool) (bins : List ℚ)
     (h : bin s false sym fl fr (if pp then some none else none) c = .ok bins) : ∀ b ∈ bins, 0 ≤ b := by
@@ -520,9 +523,12 @@ theorem bin_trapz_nonneg (s : Spectrum) (hwf : WF s) (hv : ∀ v ∈ s.value, 0 
           · simp only [Bool.false_eq_true, if_false] at h
             cases h; exact hraw0
           · simp only [if_true] at h
+            split at h
+            case isFalse => cases h; exact hraw0
             cases h
             intro b hb
             obtain ⟨r, hr, rfl⟩ := List.mem_map.mp hb
+            simp only [Gen.binRescaleFactor]
             have hS := sumL_nonneg _ hraw0
             have hI : 0 ≤ binNorm s c none := by
               simp only [binNorm]
@@ -536,32 +542,40 @@ theorem bin_trapz_nonneg (s : Spectrum) (hwf : WF s) (hv : ∀ v ∈ s.value, 0 
 
 
 /-- with power preservation the trapezoid bins sum to the spectrum's (trapezoid) integral over the span of the centres,
-`integrate s (min centres) (max centres)` — provided the un-normalised bins do not sum to zero (then the code divides 0/0) -/
+`integrate s (min centres) (max centres)`, whenever the un-normalised bins do not sum to zero; when they do (dark spectrum,
+every edge outside the data) the bins returned are the un-normalised ones, unchanged (and so still sum to zero) -/
 theorem bin_preserve_power_sum (s : Spectrum) (sym : Bool) (fl fr : ℚ) (c raw : List ℚ) (a b : ℚ)
-    (hraw : binRaw s false sym fl fr c = .ok raw) (h : sumL raw ≠ 0) (ha : minL c = some a) (hb : maxL c = some b) :
-    ∃ bins, bin s false sym fl fr (some none) c = .ok bins ∧ sumL bins = integrate s a b := by
-  refine ⟨raw.map (· * (integrate s a b / sumL raw)), ?_, ?_⟩
-  · simp [bin, hraw, binNorm, ha, hb]
-  · have hm : ∀ (l : List ℚ) (k : ℚ), (l.map (· * k)).sum = l.sum * k := by
-      intro l k; induction l with
-      | nil => simp
-      | cons x l ih => simp [ih, add_mul]
-    rw [sumL_eq_sum, hm, ← sumL_eq_sum]
-    field_simp
+    (hraw : binRaw s false sym fl fr c = .ok raw) (ha : minL c = some a) (hb : maxL c = some b) :
+    ∃ bins, bin s false sym fl fr (some none) c = .ok bins ∧
+      (sumL raw ≠ 0 → sumL bins = integrate s a b) ∧ (sumL raw = 0 → bins = raw) := by
+  by_cases h : sumL raw = 0
+  · exact ⟨raw, by simp [bin, hraw, Gen.binRescaleGuard, h], fun h' => absurd h h', fun _ => rfl⟩
+  · refine ⟨raw.map (· * (integrate s a b / sumL raw)), ?_, fun _ => ?_, fun h' => absurd h' h⟩
+    · simp [bin, hraw, binNorm, ha, hb, Gen.binRescaleGuard, Gen.binRescaleFactor, h]
+    · have hm : ∀ (l : List ℚ) (k : ℚ), (l.map (· * k)).sum = l.sum * k := by
+        intro l k; induction l with
+        | nil => simp
+        | cons x l ih => simp [ih, add_mul]
+      rw [sumL_eq_sum, hm, ← sumL_eq_sum]
+      field_simp
 
 /-- power preservation with a supplied integral `I` (the Simpson case: `I` comes from `scipy.integrate.simpson`, not
-modelled): the normalised bins of either rule sum to `I`, provided the un-normalised bins do not sum to zero -/
+modelled): the normalised bins of either rule sum to `I` whenever the un-normalised bins do not sum to zero; when they do,
+the un-normalised bins are returned unchanged -/
 theorem bin_preserve_power_sum_given (s : Spectrum) (simps sym intC : Bool) (fl fr I : ℚ) (c raw : List ℚ)
-    (hraw : binRaw s simps sym fl fr c intC = .ok raw) (h : sumL raw ≠ 0) :
-    ∃ bins, bin s simps sym fl fr (some (some I)) c intC = .ok bins ∧ sumL bins = I := by
-  refine ⟨raw.map (· * (I / sumL raw)), ?_, ?_⟩
-  · simp [bin, hraw, binNorm]
-  · have hm : ∀ (l : List ℚ) (k : ℚ), (l.map (· * k)).sum = l.sum * k := by
-      intro l k; induction l with
-      | nil => simp
-      | cons x l ih => simp [ih, add_mul]
-    rw [sumL_eq_sum, hm, ← sumL_eq_sum]
-    field_simp
+    (hraw : binRaw s simps sym fl fr c intC = .ok raw) :
+    ∃ bins, bin s simps sym fl fr (some (some I)) c intC = .ok bins ∧
+      (sumL raw ≠ 0 → sumL bins = I) ∧ (sumL raw = 0 → bins = raw) := by
+  by_cases h : sumL raw = 0
+  · exact ⟨raw, by simp [bin, hraw, Gen.binRescaleGuard, h], fun h' => absurd h h', fun _ => rfl⟩
+  · refine ⟨raw.map (· * (I / sumL raw)), ?_, fun _ => ?_, fun h' => absurd h' h⟩
+    · simp [bin, hraw, binNorm, Gen.binRescaleGuard, Gen.binRescaleFactor, h]
+    · have hm : ∀ (l : List ℚ) (k : ℚ), (l.map (· * k)).sum = l.sum * k := by
+        intro l k; induction l with
+        | nil => simp
+        | cons x l ih => simp [ih, add_mul]
+      rw [sumL_eq_sum, hm, ← sumL_eq_sum]
+      field_simp
 
 /-! ### crop keeps exactly the closed range -/
 
